@@ -204,7 +204,7 @@ theorem parseOperationType_ok (s : PS) (v : Text) (s' : PS) :
     parseOperationType s = .ok (v, s') ↔
       ∃ t ts, s.toks = t :: ts ∧ t.kind = .name ∧ t.value = v ∧ v ∈ Generated.ParserTables.operationTypeTuple ∧
         s' = ⟨ts, t⟩ := by
-  simp only [parseOperationType, bind_ok, expect_ok, ite_ok, pure_ok, fail_ok, and_false, or_false]
+  simp only [parseOperationType, bind_ok, expect_ok, ite_ok, pure_ok, failAt_ok, and_false, or_false]
   constructor
   · rintro ⟨t, s1, ⟨ts, h1, hk, rfl⟩, hm, hfin⟩
     cases hfin
